@@ -454,8 +454,8 @@ func runStore(t *testing.T, tape *verifsim.Tape, prop, tier string, keepLog bool
 func TestVerifStore(t *testing.T) {
 	verifQuietLogs()
 	verifsim.WorkerMain(t, verifsim.Harness{
-		Name:       "store",
-		RunOne:     runStore,
+		Name:   "store",
+		RunOne: runStore,
 		// an unrecovered panic is a violation only where the statement says so (C03: "no registry
 		// response ... crashes the server", C10: "never panics ... the server keeps serving"); the
 		// other properties see a dead goroutine only through their own oracles
